@@ -1242,3 +1242,44 @@ def big_text_cases(prefix, kinds):
             c.op("snap", w)
         cases.append(c)
     return cases
+
+
+def overwrite_session_cases(prefix, kinds):
+    """one write session that patches what it has already flushed: write, flush, seek back, overwrite WITHIN the flushed
+    length (the size stays the same, only bytes change), or across its end, then drop without / with a second flush; and a
+    second session over the file that writes the same number of bytes as it held"""
+    rng = random.Random(71)
+    cases = []
+    for kind in kinds:
+        for n0 in (4, 11):
+            for off in (0, 2, n0 - 1):
+                for patch in (b"7", b"ZZ", b"0123456789ab"):
+                    for final_flush in (False, True):
+                        c = vfx.Case("%s_patch_%s_%d_%d_%d_%d" % (prefix, kind, n0, off, len(patch), int(final_flush)))
+                        g = build_config(c, kind, rng)
+                        c.cfg = g
+                        t = g.target
+                        c.op("snap", t)
+                        c.first_snap = c.nops - 1
+                        h = c.op("createfile", vfx.ps(t, "f"))
+                        c.op("hwrite", h, vfx.hexs(bytes(range(48, 48 + n0))))
+                        c.op("hflush", h)
+                        c.op("readtostring", vfx.ps(t, "f"))
+                        c.op("hseek", h, "s", off)
+                        c.op("hwrite", h, vfx.hexs(patch))
+                        if final_flush:
+                            c.op("hflush", h)
+                        c.op("hdrop", h)
+                        c.op("readtostring", vfx.ps(t, "f"))
+                        c.op("metadata", vfx.ps(t, "f"))
+                        c.op("snap", t)
+                        # a new session over the existing file publishing exactly as many bytes as the file held
+                        h2 = c.op("createfile", vfx.ps(t, "f"))
+                        c.op("hwrite", h2, vfx.hexs(b"x" * max(n0, off + len(patch))))
+                        c.op("hdrop", h2)
+                        c.op("readtostring", vfx.ps(t, "f"))
+                        c.op("snap", t)
+                        for w in g.watch:
+                            c.op("snap", w)
+                        cases.append(c)
+    return cases
